@@ -41,6 +41,10 @@ pub struct Fault {
     /// inactive - for a reason other than a panic - when its at_sim_end panics
     #[serde(default)]
     pub shutdown_first: bool,
+    /// for Task: the module shuts itself down 30 ms into the run, well after its joined task panicked; the task's
+    /// panic still has to be reported by run()
+    #[serde(default)]
+    pub shutdown_late: bool,
 }
 
 #[derive(Clone, Debug, Serialize, Deserialize)]
@@ -100,6 +104,9 @@ impl Module for R {
             for (k, (t, _)) in self.timers.iter().enumerate() {
                 schedule_in(Message::default().kind(1).id(k as u16), du(*t as u128 * 1_000_000 + (k as u128 + 1) * 13_000));
             }
+            if matches!(&self.fault, Some(Fault { place: Place::Task(_), shutdown_late: true, .. })) {
+                schedule_in(Message::default().kind(9), du(30_000_777));
+            }
             if self.ticks > 0 {
                 let ticks = self.ticks;
                 let task_fault = match &self.fault {
@@ -131,6 +138,11 @@ impl Module for R {
     }
     fn handle_message(&mut self, msg: Message) {
         if self.dead {
+            return;
+        }
+        if msg.header().kind == 9 {
+            net::log("shutdown", 1, 0);
+            current().shutdown();
             return;
         }
         self.handled += 1;
@@ -427,6 +439,9 @@ pub fn run_case(case: &Case) -> Result<(bool, Vec<&'static str>, bool), Failure>
     if real.log.iter().any(|r| r.kind == "shutdown") && triggered_cb.iter().any(|m| matches!(faults[*m].as_ref().map(|f| &f.place), Some(Place::End))) {
         labels.push("shut-down-module-panics-in-at_sim_end");
     }
+    if real.log.iter().any(|r| r.kind == "shutdown" && r.a == 1) && !triggered_task.is_empty() {
+        labels.push("module-shut-down-after-its-joined-task-panicked");
+    }
     if case.faults.iter().any(|f| f.flip && !matches!(f.place, Place::Task(_))) {
         labels.push("stereotype-switched-in-the-panicking-callback");
     }
@@ -480,13 +495,14 @@ impl Prop for C13 {
             1 => Just(Place::End),
             2 => (1u8..6).prop_map(Place::Task),
         ];
-        let fault = (0u8..6, place, any::<bool>(), any::<bool>(), proptest::bool::weighted(0.25), any::<bool>()).prop_map(|(module, place, caught, after_work, flip, shutdown_first)| Fault {
+        let fault = (0u8..6, place, any::<bool>(), any::<bool>(), proptest::bool::weighted(0.25), any::<bool>(), any::<bool>()).prop_map(|(module, place, caught, after_work, flip, shutdown_first, shutdown_late)| Fault {
             module,
             place,
             caught,
             after_work,
             flip,
             shutdown_first,
+            shutdown_late,
         });
         (
             2u8..=6,
@@ -521,7 +537,7 @@ impl Prop for C13 {
                 n: 2,
                 timers: vec![(0, 0, 0)],
                 ticks: vec![1, 0],
-                faults: vec![Fault { module: 0, place: Place::Handle(1), caught: false, after_work: false, flip: false, shutdown_first: false }],
+                faults: vec![Fault { module: 0, place: Place::Handle(1), caught: false, after_work: false, flip: false, shutdown_first: false, shutdown_late: false }],
             },
         )]
     }
